@@ -45,13 +45,27 @@ let () =
          | "AC" -> (match next () with
              | "UV" -> let a = v3 () in Printf.printf "%s\n" (p3 (uv_constrain fops a))
              | _ -> let a = q4 () in Printf.printf "%s\n" (p4 (q_constrain fops a)))
+         | "AR" -> let t = next () in let f = nf () in
+           (match t with
+            | "SC" -> let a = nf () in let b = nf () in
+              Printf.printf "%s %s %s %s\n" (hex (a +. b)) (hex (a -. b)) (hex (f *. a)) (hex (a /. f))
+            | "UV" | "V3" -> let a = v3 () in let b = v3 () in
+              let ((ax, ay), az) = a in
+              Printf.printf "%s %s %s %s\n" (p3 (v3add fops a b)) (p3 (v3sub fops a b)) (p3 (v3scale fops f a)) (p3 ((ax /. f, ay /. f), az /. f))
+            | "Q" -> let a = q4 () in let b = q4 () in
+              let (((a0, a1), a2), a3) = a in
+              Printf.printf "%s %s %s %s\n" (p4 (qadd fops a b)) (p4 (qsub fops a b)) (p4 (qscale fops f a)) (p4 (((a0 /. f, a1 /. f), a2 /. f), a3 /. f))
+            | _ -> let n = ni () in let a = List.init n (fun _ -> nf ()) in let b = List.init n (fun _ -> nf ()) in
+              let pl l = String.concat " " (List.map hex l) in
+              Printf.printf "%s %s %s %s\n" (pl (List.map2 ( +. ) a b)) (pl (List.map2 ( -. ) a b)) (pl (List.map (fun x -> x *. f) a)) (pl (List.map (fun x -> x /. f) a)))
+         | "ERR" -> Printf.printf "%s %s\n" (hex 1.0) (hex 1.0)
          | "INN" -> (match next () with
              | "UV" | "V3" -> let a = v3 () in let b = v3 () in
                Printf.printf "%s %s\n" (hex (v3dot fops a b)) (hex (v3norm2 fops a))
              | "Q" -> let a = q4 () in let b = q4 () in Printf.printf "%s %s\n" (hex (qdot fops a b)) (hex (qnorm2 fops a))
              | _ -> let n = ni () in let a = List.init n (fun _ -> nf ()) in let b = List.init n (fun _ -> nf ()) in
                Printf.printf "%s %s\n" (hex (vec_inner fops a b)) (hex (vec_inner fops a a)))
-         | "CD" | "CW" ->
+         | "CD" | "CW" | "HB" | "FV" ->
            let kind = next () in let wc = nf () in let n = ni () in
            let k = (match kind with
                | "distance" | "eulerTheta" | "polarTheta" | "tilt" | "orientationAngle" | "dihedralCoeff2" -> KScalar
@@ -67,6 +81,8 @@ let () =
                | "distanceDir" -> KUnit
                | "orientation" -> KQuat
                | "cartesian" | "distancePairs" -> KVector
+               | s when String.length s > 10 && String.sub s 0 10 = "distanceZ:" ->
+                 KPeriodic (fl (String.sub s 10 (String.length s - 10)), wc)
                | s when String.length s > 9 && String.sub s 0 9 = "scripted:" ->
                  KPeriodic (fl (String.sub s 9 (String.length s - 9)), wc)
                | _ -> KScalar) in
@@ -77,6 +93,17 @@ let () =
                | KVector -> VL (List.init n (fun _ -> nf ()))) in
            let pv v = (match v with
                | VS x -> hex x | V3 x -> p3 x | VQ x -> p4 x | VL x -> String.concat " " (List.map hex x)) in
+           if w.(0) = "HB" then begin
+             let kk = nf () in let ww = nf () in let a = rd () in let b = rd () in
+             (match hr_energy fops pi kk ww k a b, hr_force fops pi kk ww k a b with
+              | Some e, Some f -> Printf.printf "%s %s\n" (hex e) (pv f)
+              | _ -> Printf.printf "typeerror\n")
+           end else if w.(0) = "FV" then begin
+             let dt = nf () in let a = rd () in let b = rd () in
+             (match fd_velocity fops pi dt k a b with
+              | Some v -> Printf.printf "%s\n" (pv v)
+              | None -> Printf.printf "typeerror\n")
+           end else
            if w.(0) = "CD" then begin
              let a = rd () in let b = rd () in
              (match comp_dist2 fops pi k a b, comp_lgrad fops pi k a b, comp_rgrad fops pi k a b with
@@ -104,6 +131,10 @@ let () =
             | Some d, Some g, Some rg ->
               Printf.printf "%s %s %s %s %s %s %s\n" (hex fl_) (hex pp) (hex cc) (hex d) (sv g) (sv rg) (sv (comp_wrap fops k (VS xw)))
             | _ -> Printf.printf "typeerror\n")
+         | "HW" -> let pp = nf () in let c = nf () in let kk = nf () in let ww = nf () in let lk = nf () in let uk = nf () in
+           let lo = nf () in let up = nf () in let x = nf () in
+           let k = if pp <> 0.0 then KPeriodic (pp, c) else KScalar in
+           Printf.printf "%s %s %s\n" (hex (hw_distance fops k lo up x)) (hex (hw_energy fops kk ww lk uk k lo up x)) (hex (hw_force fops kk ww lk uk k lo up x))
          | "MR" -> let pp = nf () in let c = nf () in let x0 = nf () in let x1 = nf () in
            let out = ref [] in
            while !p < Array.length w do let l = nf () in out := hex (mr_center fops c pp x0 x1 l) :: !out done;
@@ -121,7 +152,7 @@ let () =
            let step o = let (s', out) = pv_run fops !st [o] in st := s'; outs := List.concat out :: !outs in
            while !p < Array.length w do
              (match next () with
-              | "M" -> let pp = nf () in let c = nf () in step (PvModify (pp, c))
+              | "M" | "S" -> let pp = nf () in let c = nf () in step (PvModify (pp, c))
               | "W" -> let x = nf () in step (PvWrap x)
               | "D" -> let a = nf () in let b = nf () in step (PvDist2 (a, b))
               | "X" -> let a = nf () in let b = nf () in outs := pv_wrapped_dist2 fops !st a b :: !outs
